@@ -11,6 +11,7 @@ import (
 	"fmt"
 	"os"
 	"path"
+	"strconv"
 	"strings"
 	"sync"
 	"time"
@@ -227,6 +228,15 @@ func (c *rapidContext) watchEvents(events <-chan supvmodel.Event) {
 		}
 		termination := event.Event.ProcessTerminated()
 
+		// A process of a previous generation whose exit was not collected within the
+		// shutdown grace period is reported late. It says nothing about the processes
+		// of the current generation and must not fail or cancel it.
+		if c.isFromPreviousGeneration(*termination.Name) {
+			log.Warnf("Process %s of a previous generation exited: %+v", *termination.Name, termination)
+			c.shutdownContext.handleLateProcessExit(*termination.Name)
+			continue
+		}
+
 		// If we are not shutting down then we care if an unexpected exit happens.
 		if !c.shutdownContext.isShuttingDown() {
 			runtimeProcessName := fmt.Sprintf("%s-%d", runtimeProcessName, c.runtimeDomainGeneration)
@@ -262,6 +272,17 @@ func (c *rapidContext) watchEvents(events <-chan supvmodel.Event) {
 		// about what we send to handleShutdownEvent().
 		c.shutdownContext.handleProcessExit(*termination)
 	}
+}
+
+// isFromPreviousGeneration tells whether a process name ("runtime-<generation>",
+// "extension-<name>-<generation>") belongs to a generation other than the current one.
+func (c *rapidContext) isFromPreviousGeneration(processName string) bool {
+	idx := strings.LastIndex(processName, "-")
+	if idx < 0 {
+		return false
+	}
+	generation, err := strconv.ParseUint(processName[idx+1:], 10, 32)
+	return err == nil && uint32(generation) != c.runtimeDomainGeneration
 }
 
 // subscribe to /events for runtime domain in supervisor
